@@ -20,7 +20,7 @@ class C12(BtProp):
     keep = "TNLKVUD"
     keep_events = "EY"
     keep_own = False
-    quick_n, thorough_n = 250, 5000
+    quick_n, thorough_n = 2000, 30000
     rule = ("random trees (memory, synchronisation, guards, one-shots make the ticked set vary) ticked through "
             "BehaviourTree.tick with 0-3 ordinary, 0-2 full visitors, a SnapshotVisitor, 0-2 pre/post handlers and one-off "
             "handlers on/off; setup(x=1) and shutdown; the complete call log, tick count, snapshot record and changed flag "
